@@ -108,7 +108,7 @@ func c18LoadTable(t *testing.T) []c18Blk {
 // message can create a bank balance in those denoms (a fixture-minted one makes the distribution wrapper panic)
 var c18Denoms = []string{USDC, ATOM, ELYS, "uodd", "amm/pool/1", "amm/pool/2", "stablestake/share", "ibc/27394FB092D2ECCD56123C74F36E4C1F926001CEADA9CA97EA622B25F41E5EB2"}
 
-const c18NParam = 24
+const c18NParam = 25
 
 func c18Gen(r *Rng, id int) lHist {
 	base := lGen(r, id)
@@ -714,6 +714,8 @@ func (c *c18Run) param(i int) {
 		del(&perptypes.MsgUpdateParams{Authority: gov, Params: &p})
 	case 22: // few vesting slots per account (validation only asks for >= 0): the ICS provider address fills them up
 		del(&ctypes.MsgUpdateVestingInfo{Authority: gov, BaseDenom: "ueden", VestingDenom: ELYS, NumBlocks: 1000000, VestNowFactor: 90, NumMaxVestings: 2})
+	case 24: // a vesting schedule of zero blocks (validation only asks for >= 0)
+		del(&ctypes.MsgUpdateVestingInfo{Authority: gov, BaseDenom: "ueden", VestingDenom: ELYS, NumBlocks: 0, VestNowFactor: 90, NumMaxVestings: 10000})
 	case 23: // the provider's rewards are vested at every five-minute epoch
 		es.ProviderVestingEpochIdentifier = "five_minutes"
 		del(&estypes.MsgUpdateParams{Authority: gov, Params: es})
@@ -794,6 +796,9 @@ func c18RunHistory(t *testing.T, col *Collector, table []c18Blk, h lHist) {
 
 func c18Corpus() []lHist {
 	return []lHist{
+		{Ops: []lOp{ // zero-block vesting schedule + provider vesting at every epoch: ClaimVesting inside the epoch hook
+			{Op: "f_param", Idx: 24}, {Op: "f_param", Idx: 23}, {Op: "f_inflation", N: 1000, Idx: 1}, {Op: "blocks", N: 2, DT: 5},
+			{Op: "f_gap", N: 3, DT: 301}, {Op: "f_gap", N: 3, DT: 301}, {Op: "blocks", N: 2, DT: 301}}},
 		{Ops: []lOp{ // (fixed) the ICS provider account runs out of vesting slots: the wrapped ErrExceedMaxVestings was compared with == and the epochs begin blocker panicked
 			{Op: "f_param", Idx: 22}, {Op: "f_param", Idx: 23}, {Op: "f_inflation", N: 1000, Idx: 1}, {Op: "blocks", N: 2, DT: 5},
 			{Op: "f_gap", N: 3, DT: 301}, {Op: "f_gap", N: 3, DT: 301}, {Op: "blocks", N: 2, DT: 301}}},
